@@ -587,6 +587,7 @@ func main() {
 	kdir := flag.String("kernels", "", "root directory searched for .hsaco files")
 	kmod := flag.Int("kmod", 1, "decode every kmod-th kernel (offset seed)")
 	only := flag.String("only", "", "decode only the kernel of this name (file:symbol)")
+	koff := flag.Int("koff", -1, "which residue class of kernels -kmod selects (default: seed)")
 	flag.Parse()
 	log.SetOutput(io.Discard)
 
@@ -624,6 +625,9 @@ func main() {
 	}
 	if *kdir != "" {
 		off := int(*seed) % *kmod
+		if *koff >= 0 {
+			off = *koff % *kmod
+		}
 		r.kernels(*kdir, func(i int, name string) bool {
 			if *only != "" {
 				return name == *only
